@@ -15,7 +15,7 @@ def run(ctx):
                    conversions=s["conversions"], extra_monitor_reports=len(r["devs"]) - len(mine))
     ctx.samples.extend(s.get("samples", []))
     ctx.assumptions += ["CIE76 distances are supplied per event by the harness's own sRGB->XYZ->CIELAB code (harness/lab), scaled "
-                        "by 1e6; TLC decides membership and minimality with a tolerance of 5e-3 delta-E (near-ties depend on the digits of the sRGB matrix and white point)",
+                        "by 1e6; TLC decides membership and minimality with a tolerance of 5e-3 + 4e-4 d delta-E (near-ties depend on the digits of the sRGB matrix and white point)",
                         "the CSS table is spec/CssNames.tla, transcribed from golang.org/x/image/colornames",
                         "all 2^24 values are not swept: conversions cover channel sweeps, a 16^3 lattice, random values and "
                         "random 256-value blocks; FindColor is sampled (lattice, members, near-member values, random)"]
